@@ -150,6 +150,14 @@ def run(ctx):
                    f"&{a};", f"&#{'1' * n};", f"&#x{'f' * n};", "[" * n, "[" * n + "]" * n, f"[{a}]({a} \"{a}", f"[{a}]: <{a}", f"[{a}]: /u '{a}", "*" * n + "a", "*a" * n, "_a_" * n, "`" * n + "a", "`a" * n,
                    "\\" * n, f"![{'[' * n}", f"{'> ' * n}a", f"{'- ' * (n // 2)}a", f"www.{a}_", f"{a}@{a}_", f"http://{a}<"]
     sp["inline-stress"] = list(gen.uniq(stress))
+    # very long runs of ordinary characters (digits, letters, spaces) where a line may start a list item, a heading underline or
+    # plain text: "documents of every length" - nothing may depend on a run being short
+    longrun = []
+    for ch in "7a0 1":
+        for suffix in ("", ". item", ") item", ".", " x"):
+            for prefix in ("", "text\n", "- ", "> ", "1. ", "    "):
+                longrun.append(prefix + ch * 5000 + suffix)
+    sp["long-runs(5000)"] = list(gen.uniq(longrun)) if ctx.tier == "thorough" else list(gen.uniq(longrun))[::3]
     docs, origin = [], []
     for name, ds in sp.items():
         for d in ds:
@@ -191,6 +199,6 @@ def run(ctx):
     return ctx.finish(
         level="other",
         extra_cov={"exhaustive": ctx.tier == "thorough", "explanation": "the loop around the handler is proved to terminate in O(N^2) handler calls under the requeue contract, and to number lines truly (obligations/discharged); the verdict for the property itself (the handler returns, without internal error, in polynomial work) comes from enumeration and measurement"},
-        rule="(1) all documents of <= 3 lines over a 15-template link-reference-definition vocabulary (+ 8 templates to 4 lines) and sampled repository documents under the loop monitor; (2) the C04 document spaces + delimiter runs + the LRD vocabulary + all strings of <= 5 characters over a 9-character alphabet with tab and '[' + 90 inline stress documents (runs of 24/40/64 characters inside every inline construct); (3) 16 scalable families; quick = seed-selected subsets; non-trivial = a run in which lines were requeued; distinct by document",
+        rule="(1) all documents of <= 3 lines over a 15-template link-reference-definition vocabulary (+ 8 templates to 4 lines) and sampled repository documents under the loop monitor; (2) the C04 document spaces + delimiter runs + the LRD vocabulary + all strings of <= 5 characters over a 9-character alphabet with tab and '[' + 90 inline stress documents (runs of 24/40/64 characters inside every inline construct) + 150 (quick 50) documents with a run of 5000 digits, letters or spaces in list-start, continuation and plain positions; (3) 16 scalable families; quick = seed-selected subsets; non-trivial = a run in which lines were requeued; distinct by document",
         assumptions=["'small polynomial' is read as exponent <= 3.3 on the measured families"],
     )
